@@ -58,12 +58,23 @@ func ErrClass(err error) string {
 
 // Decode runs the real decoder. A panic is recovered and reported (a fatal runtime error such as out of
 // memory cannot be recovered: the caller runs this in a child process with an address-space limit).
-func Decode(b []byte, maxArr int, viaFile string) (d Decoded) {
+func Decode(b []byte, maxArr int, viaFile string) (d Decoded) { return DecodeAt(b, maxArr, viaFile, 0) }
+
+// DecodeAt decodes b as the content that follows `skip` bytes of other data in the same reader (as ggufLayers does
+// for the second and later models of one blob): every position the decoder sees is absolute.
+func DecodeAt(b []byte, maxArr int, viaFile string, skip int) (d Decoded) {
 	defer func() {
 		if r := recover(); r != nil {
 			d = Decoded{Panic: fmt.Sprint(r)}
 		}
 	}()
+	if skip > 0 {
+		pre := make([]byte, skip)
+		for i := range pre {
+			pre[i] = byte(0xA5 ^ i)
+		}
+		b = append(pre, b...)
+	}
 	var rs io.ReadSeeker = bytes.NewReader(b)
 	if viaFile != "" {
 		if err := os.WriteFile(viaFile, b, 0o600); err != nil {
@@ -76,6 +87,11 @@ func Decode(b []byte, maxArr int, viaFile string) (d Decoded) {
 		defer f.Close()
 		defer os.Remove(viaFile)
 		rs = f
+	}
+	if skip > 0 {
+		if _, err := rs.Seek(int64(skip), io.SeekStart); err != nil {
+			panic("harness: " + err.Error())
+		}
 	}
 	var m1, m2 runtime.MemStats
 	runtime.ReadMemStats(&m1)
